@@ -43,6 +43,9 @@ type DeployBehaviour struct {
 	BadWritesRun   bool `json:"bad_writes_run,omitempty"`
 	// MismatchRun serves a different schema (without the step) on run deployments.
 	MismatchRun bool `json:"mismatch_run,omitempty"`
+	// IgnoreCancel: the run deployment does not honour its context (delay slept in full, the
+	// deployment then succeeds), like a deployer that cannot be interrupted.
+	IgnoreCancel bool `json:"ignore_cancel,omitempty"`
 	// CloseDelayMs makes closing a run deployment take this long.
 	CloseDelayMs int `json:"close_delay_ms,omitempty"`
 }
